@@ -128,6 +128,18 @@ def ts_magic(name, split):
     return [f"const {name} = baseValue + 4711;"], 1, 1
 
 
+def _pick(name, n):
+    return sum(ord(c) for c in name) % n
+
+
+def ts_magic_spelled(name, split):
+    """Literals not written the way str(value) prints them: hexadecimal, digit separators, exponent."""
+    lit = ("0x1267", "4_711", "47.11e2", "0b1001001100111")[_pick(name, 4)]
+    if split:
+        return [f"const {name} =", "  baseValue + 4 - 4 +", f"  {lit};"], 3, 3
+    return [f"const {name} = baseValue + {lit};"], 1, 1
+
+
 def ts_print(name, split):
     if split:
         return ["console.log(", f'  "{name}",', ");"], 1, 1
@@ -157,6 +169,13 @@ def rs_magic(name, split):
     if split:
         return [f"fn {name}(base_value: i32) -> i32 {{", "    base_value", "        + 4711", "}"], 3, 3
     return [f"fn {name}(base_value: i32) -> i32 {{", "    base_value + 4711", "}"], 2, 2
+
+
+def rs_magic_spelled(name, split):
+    lit = ("0x1267", "4_711", "4_711i32", "0o11147")[_pick(name, 4)]
+    if split:
+        return [f"fn {name}(base_value: i32) -> i32 {{", "    base_value", f"        + {lit}", "}"], 3, 3
+    return [f"fn {name}(base_value: i32) -> i32 {{", f"    base_value + {lit}", "}"], 2, 2
 
 
 def rs_unwrap(name, split):
@@ -209,11 +228,13 @@ TEMPLATES = {
     "ts_nesting_callback": ("typescript", "nesting", ts_nesting_callback, "if", False, True, "{}\n"),
     "ts_srp": ("typescript", "srp", ts_srp, "if", False, True, "{}\n"),
     "ts_magic": ("typescript", "magic-numbers", ts_magic, "func", False, True, "{}\n"),
+    "ts_magic_spelled": ("typescript", "magic-numbers", ts_magic_spelled, "func", False, True, "{}\n"),
     "ts_print": ("typescript", "print-statements", ts_print, "func", False, True, "{}\n"),
     "ts_concat": ("typescript", "perf", ts_concat, "if", False, True, "{}\n"),
     "rs_nesting": ("rust", "nesting", rs_nesting, "mod", True, True, "{}\n"),
     "rs_srp": ("rust", "srp", rs_srp, "mod", True, True, "{}\n"),
     "rs_magic": ("rust", "magic-numbers", rs_magic, "mod", True, True, "{}\n"),
+    "rs_magic_spelled": ("rust", "magic-numbers", rs_magic_spelled, "mod", True, True, "{}\n"),
     "rs_unwrap": ("rust", "unwrap-abuse", rs_unwrap, "mod", True, True, "{}\n"),
     "rs_clone": ("rust", "clone-abuse", rs_clone, "mod", True, True, "{}\n"),
     "rs_blocking": ("rust", "blocking-async", rs_blocking, "mod", True, True, "{}\n"),
